@@ -112,7 +112,8 @@ class event_occurrence
         event_occurrence&, void* /*sm*/, uint16_t /*seq_cnt*/);
 
   public:
-    event_occurrence(process_fn_t process_fn) : m_process_fn(process_fn)
+    event_occurrence(process_fn_t process_fn, bool is_completion = false)
+        : m_process_fn(process_fn), m_is_completion(is_completion)
     {
     }
 
@@ -135,12 +136,19 @@ class event_occurrence
         return m_marked_for_deletion;
     }
 
+    // Whether this is the occurrence of a completion event.
+    bool is_completion() const
+    {
+        return m_is_completion;
+    }
+
   private:
     process_fn_t m_process_fn{};
     // Flag set when this event has been processed and can be erased.
     // Deletion is deferred to allow the use of std::deque,
     // which provides better cache locality and lower per-element overhead.
     bool m_marked_for_deletion{};
+    bool m_is_completion{};
 };
 
 template <typename Event>
